@@ -71,10 +71,45 @@ pub open spec fn transport_hdr_spec(dst: u8, src: u8) -> Seq<u8> {
 }
 /// everything before the PEC; `body` = the bytes after the message-type byte
 pub open spec fn packet_pre(dst: u8, me: u8, mt: u8, body: Seq<u8>) -> Seq<u8> {
-    smbus_hdr_spec(dst, me, (6 + body.len()) as u8) + transport_hdr_spec(dst, me) + seq![mt] + body
+    smbus_hdr_spec(dst, me, #[verifier::truncate] ((6 + body.len()) as u8)) + transport_hdr_spec(dst, me) + seq![mt] + body
 }
 pub open spec fn packet_spec(dst: u8, me: u8, mt: u8, body: Seq<u8>) -> Seq<u8> {
     packet_pre(dst, me, mt, body).push(crc8(packet_pre(dst, me, mt, body)))
+}
+/// the bytes of packet_spec, index by index
+pub proof fn lemma_packet_spec_index(dst: u8, me: u8, mt: u8, body: Seq<u8>)
+    ensures
+        packet_spec(dst, me, mt, body).len() == 10 + body.len(),
+        packet_spec(dst, me, mt, body)[0] == (dst & 0x7f) << 1,
+        packet_spec(dst, me, mt, body)[1] == 0x0Fu8,
+        packet_spec(dst, me, mt, body)[2] == #[verifier::truncate] ((6 + body.len()) as u8),
+        packet_spec(dst, me, mt, body)[3] == ((me & 0x7f) << 1) | 1u8,
+        packet_spec(dst, me, mt, body)[4] == 0x01u8,
+        packet_spec(dst, me, mt, body)[5] == dst,
+        packet_spec(dst, me, mt, body)[6] == me,
+        packet_spec(dst, me, mt, body)[7] == 0xC8u8,
+        packet_spec(dst, me, mt, body)[8] == mt,
+        forall|j: int| 0 <= j < body.len() ==> #[trigger] packet_spec(dst, me, mt, body)[9 + j] == body[j],
+        packet_spec(dst, me, mt, body)[9 + body.len() as int] == crc8(packet_spec(dst, me, mt, body).subrange(0, 9 + body.len() as int)),
+        packet_spec(dst, me, mt, body).subrange(0, 9 + body.len() as int) =~= packet_pre(dst, me, mt, body),
+{
+    assert(packet_spec(dst, me, mt, body).subrange(0, 9 + body.len() as int) =~= packet_pre(dst, me, mt, body));
+}
+/// a buffer whose first 10+|body| bytes are packet_spec(.., body) carries `body` at 9.. and is packet_spec of that sub-range
+pub proof fn lemma_packet_spec_body(dst: u8, me: u8, mt: u8, body: Seq<u8>)
+    ensures
+        forall|b: Seq<u8>| #![trigger b.subrange(9, 9 + body.len() as int)]
+            (b.len() >= 10 + body.len() && (forall|i: int| 0 <= i < 10 + body.len() ==> b[i] == packet_spec(dst, me, mt, body)[i]))
+            ==> b.subrange(9, 9 + body.len() as int) =~= body,
+{
+    lemma_packet_spec_index(dst, me, mt, body);
+    assert forall|b: Seq<u8>| #![trigger b.subrange(9, 9 + body.len() as int)]
+            (b.len() >= 10 + body.len() && (forall|i: int| 0 <= i < 10 + body.len() ==> b[i] == packet_spec(dst, me, mt, body)[i]))
+            implies b.subrange(9, 9 + body.len() as int) =~= body by {
+        assert forall|j: int| 0 <= j < body.len() implies b.subrange(9, 9 + body.len() as int)[j] == body[j] by {
+            assert(b[9 + j] == packet_spec(dst, me, mt, body)[9 + j]);
+        }
+    }
 }
 /// largest `body` (bytes after the type byte) the one-byte SMBus byte count can carry: 6+|body| <= 255
 pub open spec fn max_body() -> int { 249 }
